@@ -269,8 +269,9 @@ _STA = {}
 def _sta_key(case):
     import json
 
-    return json.dumps([case["station"], case.get("el"), case.get("tle"), case["mjd"], case["sec"], case["offset"],
-                       case["step"], case["prop"], _n0(case)], sort_keys=True)
+    oc = case.get("station_orbit") or case
+    return json.dumps([case["station"], oc.get("el"), oc.get("tle"), oc["mjd"], oc["sec"], oc["offset"],
+                       oc["step"], oc["prop"], _n0(oc)], sort_keys=True)
 
 
 def _n0(case):
@@ -291,12 +292,13 @@ def station_of(case):
     from . import c04, c11
 
     sp = case["station"]
-    start, stop, step = grid(case)
-    when = start + timedelta(seconds=round(sp["at"] * _n0(case) * case["step"]))
-    if case["prop"] == "sgp4":
-        sv = c04.tle_orbit(case["tle"], epoch_of(case), "Sgp4").propagate(when)
+    oc = case.get("station_orbit") or case  # the orbit whose ground track places the station
+    start, stop, step = grid(oc)
+    when = start + timedelta(seconds=round(sp["at"] * _n0(oc) * oc["step"]))
+    if oc["prop"] == "sgp4":
+        sv = c04.tle_orbit(oc["tle"], epoch_of(oc), "Sgp4").propagate(when)
     else:
-        sv = c04.cart_orbit(case["el"], epoch_of(case), Kepler()).propagate(when)
+        sv = c04.cart_orbit(oc["el"], epoch_of(oc), Kepler()).propagate(when)
     p = np.asarray(sv.copy(frame="ITRF", form="cartesian").base, float)[:3]
     lat = math.degrees(math.atan2(p[2], math.hypot(p[0], p[1]))) + sp["dlat"]
     lat = max(-89.0, min(89.0, lat))
@@ -1183,6 +1185,98 @@ def check_reuse(case):
     return dict(nt=total > 0, cls=classes_of(case, stats) + [f"ops:{len(case['ops'])}"])
 
 
+# ------------------------------------------------------------------ the same listeners serve different orbits
+
+
+@st.composite
+def reuse_sources_case(draw, shard, tier):
+    """The same listener objects (station listeners included) are handed, one iteration after the other,
+    to 2-3 DIFFERENT trajectories sampled on the SAME date grid (or a shifted one)."""
+    base = draw(passes_case(shard, tier))
+    base["n"] = min(base["n"], 110)
+    orbit_keys = ("prop", "el", "tle")
+    variants = [{k: base[k] for k in orbit_keys if k in base}]
+    for _ in range(draw(st.integers(1, 2))):
+        how = draw(st.sampled_from(["phase", "plane", "other"]))
+        v = dict(variants[0])
+        if how == "other" or ("el" not in v and how != "phase"):
+            other = draw(passes_case(shard, tier))
+            v = {k: other[k] for k in orbit_keys if k in other}
+        elif "el" in v:
+            el = dict(v["el"])
+            if how == "phase":
+                M = (el["anom"] + draw(go.uniform(0.3, 6.0))) % TWO_PI
+                el.update(anom=M, nu=tb.E2nu(tb.solve_kepler_E(M, el["e"]), el["e"]))
+            else:
+                el["raan"] = (el["raan"] + draw(go.uniform(0.2, 1.0))) % TWO_PI
+            v["el"] = el
+            v["prop"] = draw(st.sampled_from(["kepler", "ephem"]))
+        else:
+            tle = dict(v["tle"])
+            tle["M"] = (tle["M"] + draw(go.uniform(0.3, 6.0))) % 6.28
+            v["tle"] = tle
+        variants.append(v)
+    pool = ["signal", "signal", "max", "radial", "node", "apside", "light"] + (["mask"] if base["station"]["mask"] else [])
+    base["listeners"] = [dict(kind="signal", elev=0.0)] + [draw(listener_spec(base, pool)) for _ in range(draw(st.integers(0, 2)))]
+    nv = len(variants)
+    runs = [dict(v=0, shift=0)]
+    for _ in range(draw(st.integers(2, 4))):
+        runs.append(dict(v=draw(st.integers(0, nv - 1)), shift=draw(st.sampled_from([0, 0, 0, 1, 7]))))
+    if draw(st.booleans()):
+        runs = runs[::-1]
+    if len({r["v"] for r in runs}) == 1:
+        runs.append(dict(v=(runs[0]["v"] + 1) % nv, shift=0))
+    base["variants"] = variants
+    base["runs"] = runs
+    base["ephem_native"] = False
+    return base
+
+
+def check_reuse_sources(case):
+    what = describe(case) + f" over {len(case['variants'])} trajectories"
+    station_orbit = {k: case[k] for k in ("prop", "el", "tle", "mjd", "sec", "offset", "step", "n") if k in case}
+    specs = listeners = None
+    total = 0
+    served = []
+    for k, run in enumerate(case["runs"]):
+        v = case["variants"][run["v"]]
+        vcase = {kk: vv for kk, vv in case.items() if kk not in ("el", "tle", "prop", "variants", "runs")}
+        vcase.update(v, station_orbit=station_orbit, offset=case["offset"] + run["shift"] * case["step"])
+        if listeners is None:
+            specs, listeners = make_listeners(vcase)
+        source, native = make_source(vcase)
+        items = run_stream(source, vcase, listeners)
+        stream = [(it.us, it.label, it.lis) for it in items]
+        src2, _ = make_source(vcase)
+        _, fresh = make_listeners(vcase)
+        ref = [(it.us, it.label, it.lis) for it in run_stream(src2, vcase, fresh)]
+        served.append((run["v"], run["shift"]))
+        if stream != ref:
+            a = [x for x in stream if x[1] is not None]
+            b = [x for x in ref if x[1] is not None]
+            raise Violation("reuse-other-trajectory",
+                            f"{what}: iteration #{k} (trajectory, grid shift) = {served[-1]} after {served[:-1]} with the "
+                            f"re-used listener objects gives events {a[:4]}, fresh listener objects give {b[:4]}",
+                            run=k)
+        # the stream itself against the sampling model, and zero elevation at every AOS / LOS
+        _, stats, (_, _, _, _, gs, sidx) = analyse(vcase, {"ordered", "model", "labels"}, source=source, listeners=listeners,
+                                                    specs=specs, items=items)
+        geo = station_of(vcase)[1]
+        t_res = 45e-6 if vcase["prop"] == "sgp4" else 3e-6
+        for it in items:
+            if it.label is None or it.dup or gs[it.lis].kind != "signal":
+                continue
+            t = topo_state(it.sv, geo)
+            g = t["el"] - gs[it.lis].spec["elev"]
+            if abs(g) > 1e-6 + t_res * abs(t["eldot"]):
+                raise Violation("reuse-aos-los-elevation", f"{what}: iteration #{k}: {it.label} at t = {it.us / 1e6} s with the "
+                                                           f"satellite {g:.4g} rad from the threshold")
+        total += stats["events"]
+    stats = dict(events=total, multi=False, skipped=0)
+    return dict(nt=total > 0, cls=classes_of(case, stats) + [f"trajectories:{len(case['variants'])}", f"runs:{len(case['runs'])}"]
+                + (["shifted-grid"] if any(r["shift"] for r in case["runs"]) else []))
+
+
 # ------------------------------------------------------------------ facets
 
 FACETS = [
@@ -1210,6 +1304,9 @@ FACETS = [
           rule="at least one AOS / LOS / MAX event", quick=(6, 5), thorough=(32, 25)),
     Facet("union", lambda s, t: stream_case(s, t, nmin=2, nmax=3), check_union, setup=setup, shrink_quick=False,
           rule="two or more listeners and at least one event", quick=(4, 5), thorough=(16, 30)),
+    Facet("reuse_other_trajectory", reuse_sources_case, check_reuse_sources, setup=setup, shrink_quick=False,
+          rule="the same listener objects served at least two different trajectories and at least one event occurred",
+          quick=(8, 3), thorough=(32, 8)),
     Facet("reuse", reuse_case, check_reuse, setup=setup, shrink_quick=False,
           rule="at least one event over the history", quick=(4, 4), thorough=(16, 25)),
 ]
